@@ -185,3 +185,24 @@ package eval
 //@   ensures [exact-zero-divisor] isint(a) && a.(int) == 0 ==> err != nil
 //@   ensures [int-reciprocal] isint(a) && a.(int) != 0 ==> err == nil && istype(r, *big.Rat) && rat_eq_frac(r.(*big.Rat), 1, a.(int))
 //@   ensures [float-reciprocal] isflt(a) ==> err == nil && isflt(r) && r.(float64) === tofloat(1) / a.(float64)
+
+// ---------------------------------------------------------------------------
+// C21: defer / with / tmp. The ghost call log records every call of an opaque
+// function value made by the activation (log fv): callidx(k) is the index i of
+// the k-th call when it has the form xs[i](...), callres(k) its result.
+
+// Every registered callback runs exactly once, in reverse registration order,
+// and the first exception in that order is the one reported.
+//@ func Frame.runDefers
+//@   props C21
+//@   log fv
+//@   results exc
+//@   loop 1 invariant -1 <= i && i < len(defers)
+//@   loop 1 invariant ncalls == len(defers) - 1 - i
+//@   loop 1 invariant forall k int :: 0 <= k && k < ncalls ==> callidx(k) == len(defers) - 1 - k
+//@   loop 1 invariant (exc === nil) == (forall k int :: 0 <= k && k < ncalls ==> callres(k) === nil)
+//@   loop 1 invariant !(exc === nil) ==> (exists k int :: 0 <= k && k < ncalls && callres(k) === exc && (forall j int :: 0 <= j && j < k ==> callres(j) === nil))
+//@   exit [each-once] ncalls == len(defers)
+//@   exit [reverse-order] forall k int :: 0 <= k && k < ncalls ==> callidx(k) == len(defers) - 1 - k
+//@   exit [nil-iff-all-succeeded] (exc === nil) == (forall k int :: 0 <= k && k < ncalls ==> callres(k) === nil)
+//@   exit [first-exception-reported] !(exc === nil) ==> (exists k int :: 0 <= k && k < ncalls && callres(k) === exc && (forall j int :: 0 <= j && j < k ==> callres(j) === nil))
